@@ -11,6 +11,7 @@ STUB_TABLE = ("(define-fun subclass ((a Int)(b Int)) Bool false)\n(define-fun me
 
 LEMMA_FILES = {
     "JSON-ELEM": ["json_elem_seq_step", "json_elem_vals_step"],
+    "JSON-INTRO": ["json_intro_seq_step", "json_intro_vals_step"],
     "RB": ["rb_scalar", "rb_seq_step", "rb_list", "rb_absent", "rb_dget_step", "rb_map_step", "rb_dict"],
     "DICT-ITEM": ["dict_distinct_step", "dict_item_step", "dict_wf_suffix_step", "dict_haskey_step"],
     "MEM-EX": ["mem_ex_step", "mem_ex_conv_step"],
